@@ -20,6 +20,7 @@ EXPLANATION = (
     "matching variant wins) applies the pairwise predicate to *all* pairs — two nested iterations over the alternatives — not "
     "to neighbours only; (W5b) a per-variant helper that names the variant's payload type derives the hint from something "
     "that differs per variant."
+    " (D3) in maybe_option an alternative is dropped as `the null` only when its type is exactly null (a single Null, or a type array all of whose members are Null); (D1, constants) constant_string_value reads an element of an `enum` list only under `len() == 1`."
 )
 ASSUMPTIONS = ["serde tag inference, untagged ordering and shadowing are not decided"]
 
